@@ -117,6 +117,26 @@ def walk(rec, exprs):
     return ent[2], ent[3], ent[4]
 
 
+def _is_node_list(x):
+    """A list of ddsmt nodes (possibly empty)?"""
+    if not isinstance(x, list):
+        return False
+    N = M.nodes.Node
+    return all(isinstance(e, N) for e in x[:3])
+
+
+def _own_functions(mod):
+    """Plain functions defined in ``mod`` (name, function)."""
+    import types
+    fn = getattr(mod, '__file__', None)
+    out = []
+    for name, obj in sorted(vars(mod).items()):
+        if isinstance(obj, types.FunctionType) and fn and os.path.abspath(
+                obj.__code__.co_filename) == os.path.abspath(fn):
+            out.append((name, obj))
+    return out
+
+
 def install_probes():
     m = M
 
@@ -192,10 +212,13 @@ def install_probes():
     # -- check_exprs ------------------------------------------------------------
     def mk_check(orig):
 
-        def check_exprs(exprs, *a, **k):
+        def check_exprs(*args, **k):
             rec = CTX.rec
-            if rec is None:
-                return orig(exprs, *a, **k)
+            exprs = args[0] if args else None
+            a = args[1:]
+            if rec is None or not _is_node_list(exprs) or (
+                    generic_check and rec.open_checks.get(_actor())):
+                return orig(*args, **k)
             S = CTX.S
             actor = _actor()
             try:
@@ -239,18 +262,33 @@ def install_probes():
         check_exprs.__wrapped__ = orig
         return check_exprs
 
-    _wrap_module_attr(m.checker, 'check_exprs', mk_check)
+    generic_check = not hasattr(m.checker, 'check_exprs')
+    if not generic_check:
+        _wrap_module_attr(m.checker, 'check_exprs', mk_check)
+    else:
+        # renamed: whichever function of the checker is called with a list of
+        # nodes is the check of a candidate (the outermost such call counts)
+        MISSING.append('ddsmt.checker.check_exprs (generic probe used)')
+        for name, f in _own_functions(m.checker):
+            w = mk_check(f)
+            w.__name__ = f.__name__
+            w.__qualname__ = f.__qualname__
+            w.__module__ = f.__module__
+            setattr(m.checker, name, w)
 
     # -- write_smtlib_to_file ---------------------------------------------------
     def mk_write(orig):
 
-        def write_smtlib_to_file(filename, exprs, *a, **k):
+        def write_smtlib_to_file(*args, **k):
             rec = CTX.rec
-            if rec is None:
-                return orig(filename, exprs, *a, **k)
+            if rec is None or len(args) < 2 or not isinstance(
+                    args[0], (str, os.PathLike)) or rec.rewrite_depth > 0:
+                return orig(*args, **k)
+            filename, exprs, a = args[0], args[1], args[2:]
             is_out = os.path.abspath(filename) == CTX.outpath
-            if not is_out:
-                return orig(filename, exprs, *a, **k)
+            if not is_out or not (_is_node_list(exprs)
+                                  or hasattr(exprs, 'data')):
+                return orig(*args, **k)
             try:
                 if isinstance(exprs, list):
                     _t, dig, sdig = walk(rec, exprs)
@@ -304,7 +342,18 @@ def install_probes():
         write_smtlib_to_file.__wrapped__ = orig
         return write_smtlib_to_file
 
-    _wrap_module_attr(m.nodeio, 'write_smtlib_to_file', mk_write)
+    if hasattr(m.nodeio, 'write_smtlib_to_file'):
+        _wrap_module_attr(m.nodeio, 'write_smtlib_to_file', mk_write)
+    else:
+        # renamed: whichever function of nodeio is called with the output
+        # file's name and a list of nodes is the writer
+        MISSING.append('ddsmt.nodeio.write_smtlib_to_file (generic probe used)')
+        for name, f in _own_functions(m.nodeio):
+            w = mk_write(f)
+            w.__name__ = f.__name__
+            w.__qualname__ = f.__qualname__
+            w.__module__ = f.__module__
+            setattr(m.nodeio, name, w)
 
     # -- round starts (C13) ----------------------------------------------------
     def wrap_init(cls, kind, argpos):
@@ -312,14 +361,24 @@ def install_probes():
             MISSING.append(kind)
             return
         orig = cls.__init__
+        if getattr(orig, '__wrapped__', None) is not None:
+            return
 
         def __init__(self, *a, **k):
             rec = CTX.rec
             if rec is not None:
                 try:
-                    exprs = a[argpos] if len(a) > argpos else None
+                    exprs = a[argpos] if argpos is not None and len(
+                        a) > argpos else None
                     if exprs is None:
                         exprs = k.get('exprs', k.get('original'))
+                    if exprs is None and argpos is None:
+                        # generic: the first argument that is a non-empty
+                        # list of nodes
+                        for x in list(a[:5]) + list(k.values()):
+                            if x and _is_node_list(x):
+                                exprs = x
+                                break
                     if isinstance(exprs, list):
                         ntok = len(reftok.tree_tokens(exprs))
                         if ntok > rec.max_tokens:
@@ -341,8 +400,18 @@ def install_probes():
         __init__.__wrapped__ = orig
         cls.__init__ = __init__
 
-    wrap_init(getattr(m.ddmin, 'TaskGenerator', None), 'TaskGenerator', 0)
-    wrap_init(getattr(m.hier, 'Producer', None), 'Producer', 2)
+    for mod, cname, pos in ((m.ddmin, 'TaskGenerator', 0),
+                            (m.hier, 'Producer', 2)):
+        if hasattr(mod, cname):
+            wrap_init(getattr(mod, cname), cname, pos)
+        else:
+            # renamed: every class of the module whose constructor receives a
+            # list of nodes starts a round
+            MISSING.append(f'{cname} (generic probe used)')
+            for n2, c2 in sorted(vars(mod).items()):
+                if isinstance(c2, type) and c2.__module__ == mod.__name__ \
+                        and '__init__' in vars(c2):
+                    wrap_init(c2, n2, None)
 
     # -- reduplicate ------------------------------------------------------------
     def mk_redup(orig):
